@@ -7,11 +7,12 @@ META = {
     "driver_id": "Edit",
     "coq_targets": ["Props/C04.vo", "Extract/Extract_Edit.vo"],
     "technique": 'Coq invariant / refinement proofs over the executable edit-machine model + step-by-step differential correspondence of the extracted model with the implementation + direct oracle on the implementation',
-    "level_text": 'Proved in Coq over the executable edit-machine model (Props/C04.v, all closed under the global context): C04_global - on a well-formed forward-in-time binary forest the local invariant W_trk (T1: id constant along every edge whose source does not divide, T2: distinct heads carry distinct ids) implies that two nodes carry the same track id iff they lie on the same unbranched segment (all pairs); C04_walk_chain, C04_chain_complete, C04_upd_track_ids, C04_upd_track_same_id - the relabelling walk of UpdateTrackIDs with its single global still_in_tracklet flag gives the new id to exactly the unbranched chain below the start node and changes no other track id (hypotheses: the chain carries the old id, and the first child of a dividing chain end does not; both are derived from W_trk where the theorems below use them); C04_step_delete_edge / C04_core_delete_edge / C04_step_delete_edge_global and C04_step_add_edge / C04_core_add_edge / C04_step_add_edge_global - every accepted UserDeleteEdge (plain and division branch) and UserAddEdge (join and new-division branch, with or without the forced removal of the old parent edge) maps a state satisfying W_dict, W_forest, W_trk and the id bound trk_bounded (a conjunct of the C06 lookup invariant, C04_book_bound) with the track feature active to a state satisfying W_trk and trk_bounded again, hence the global iff again, with the exact resulting edge relation; no extra precondition (such as no id reuse downstream) was needed; C04_frame_delete_edge, C04_frame_add_edge - these two actions leave the track id of every node outside the connected components of the named nodes unchanged (core forms: only descendants of u, v or of the old parent of v can change). Examples evaluate the extracted step function on a 4-node division state. C04_step_delete_node, C04_frame_delete_node, C04_step_add_node (UserDeleteNode / UserAddNode preserve configuration, dictionaries, forest, track ids, lineage ids and lookups together, all branches; what a deletion may relabel); C04_run_edge_calls (every state reachable from a well-formed state by any sequence, of any length, of edge-level calls - add / delete edge with and without force, swap, track queries, fresh ids - satisfies the complete invariant WF: dictionaries, forest, track ids, lineage ids, lookups, label/node correspondence, fresh features; induction over the call list); C04_run_node_calls (the same reachability statement with UserAddNode and UserDeleteNode included, accepted or refused, each UserAddNode respecting its documented preconditions - integer time / track id, no caller-supplied lineage id, and with a segmentation a non-zero id and background pixels of its own frame; Proofs/EditWFNodeExample.v shows three accepted calls outside these preconditions that break the invariant); C04_sessions (from a well-formed state with an empty history, EVERY state reached along ANY sequence - of any length - of calls of the WHOLE public interface of the edit machine - edge, swap, node, attribute and stroke edits, undo, redo, queries - accepted or refused, satisfies the complete invariant WF; hypotheses: three configuration facts no call changes, and the documented per-call preconditions of UserAddNode / node calls without segmentation at the moment each call is made; strokes, edge calls, attribute updates, undo and redo have none); C04_paint and C04_run_paint_calls (every accepted stroke yields a well-formed state; every refused stroke too, the rolled-back one included); C04_user_actions_are_generated (the seven composite user actions of the model equal, for all arguments, the code translated on every run from the current user_actions/*.py). NOT proved in Coq, resting only on the step-by-step differential correspondence of the extracted model with the implementation plus the all-pairs segment oracle evaluated on the implementation after every accepted action: the initial construction (_assign_tracklet_ids; its result is proved to satisfy the invariant under C10_enable_ids_trk), nothing else; and the frame clause for those (including the part about the named track); the chaining of the per-action theorems over whole sessions additionally needs W_dict / W_forest / W_book preservation for those actions (C03, C06), which is likewise per basic action only.',
+    "level_text": 'Proved in Coq over the executable edit-machine model (Props/C04.v, all closed under the global context): C04_global - on a well-formed forward-in-time binary forest the local invariant W_trk (T1: id constant along every edge whose source does not divide, T2: distinct heads carry distinct ids) implies that two nodes carry the same track id iff they lie on the same unbranched segment (all pairs); C04_walk_chain, C04_chain_complete, C04_upd_track_ids, C04_upd_track_same_id - the relabelling walk of UpdateTrackIDs with its single global still_in_tracklet flag gives the new id to exactly the unbranched chain below the start node and changes no other track id (hypotheses: the chain carries the old id, and the first child of a dividing chain end does not; both are derived from W_trk where the theorems below use them); C04_step_delete_edge / C04_core_delete_edge / C04_step_delete_edge_global and C04_step_add_edge / C04_core_add_edge / C04_step_add_edge_global - every accepted UserDeleteEdge (plain and division branch) and UserAddEdge (join and new-division branch, with or without the forced removal of the old parent edge) maps a state satisfying W_dict, W_forest, W_trk and the id bound trk_bounded (a conjunct of the C06 lookup invariant, C04_book_bound) with the track feature active to a state satisfying W_trk and trk_bounded again, hence the global iff again, with the exact resulting edge relation; no extra precondition (such as no id reuse downstream) was needed; C04_frame_delete_edge, C04_frame_add_edge - these two actions leave the track id of every node outside the connected components of the named nodes unchanged (core forms: only descendants of u, v or of the old parent of v can change). Examples evaluate the extracted step function on a 4-node division state. C04_step_delete_node, C04_frame_delete_node, C04_step_add_node (UserDeleteNode / UserAddNode preserve configuration, dictionaries, forest, track ids, lineage ids and lookups together, all branches; what a deletion may relabel); C04_run_edge_calls (every state reachable from a well-formed state by any sequence, of any length, of edge-level calls - add / delete edge with and without force, swap, track queries, fresh ids - satisfies the complete invariant WF: dictionaries, forest, track ids, lineage ids, lookups, label/node correspondence, fresh features; induction over the call list); C04_run_node_calls (the same reachability statement with UserAddNode and UserDeleteNode included, accepted or refused, each UserAddNode respecting its documented preconditions - integer time / track id, no caller-supplied lineage id, and with a segmentation a non-zero id and background pixels of its own frame; Proofs/EditWFNodeExample.v shows three accepted calls outside these preconditions that break the invariant); C04_sessions (from a well-formed state with an empty history, EVERY state reached along ANY sequence - of any length - of calls of the WHOLE public interface of the edit machine - edge, swap, node, attribute and stroke edits, undo, redo, queries - accepted or refused, satisfies the complete invariant WF; hypotheses: three configuration facts no call changes, and the documented per-call preconditions of UserAddNode / node calls without segmentation at the moment each call is made; strokes, edge calls, attribute updates, undo and redo have none); C04_paint and C04_run_paint_calls (every accepted stroke yields a well-formed state; every refused stroke too, the rolled-back one included); C04_user_actions_are_generated (the seven composite user actions of the model equal, for all arguments, the code translated on every run from the current user_actions/*.py); C04_sessions_from_construction (the start state need not be assumed well formed: for every valid raw solution - forest, labels and nodes one-to-one, fresh feature table, true oracle partitions - the state constructed by enabling the core features with recomputation is well formed, so every session over the whole interface from it stays well formed). NOT proved in Coq, resting only on the step-by-step differential correspondence of the extracted model with the implementation plus the all-pairs segment oracle evaluated on the implementation after every accepted action: the initial construction (_assign_tracklet_ids; its result is proved to satisfy the invariant under C10_enable_ids_trk), nothing else; and the frame clause for those (including the part about the named track); the chaining of the per-action theorems over whole sessions additionally needs W_dict / W_forest / W_book preservation for those actions (C03, C06), which is likewise per basic action only. C04_core_is_generated: one level further down, the queries, the node-id counter, Tracks.undo / redo and the seven basic actions with their inverses of the model equal the code translated on every run from solution_tracks.py, tracks.py, _track_annotator.py and actions/*.py (Gen/Core_gen.v; statement in Proofs/CoreTieBundle.v).',
     "level_note": 'Trusted: Coq kernel, extraction (ExtrOcamlBasic only), OCaml driver drv_Edit.ml, Python harness and oracles. Modelled, not verified: networkx DiGraph dict semantics, numpy indexing, skimage regionprops (symbolic: value = function of key, mask, spacing), psygnal. The theorems are about the hand-written model coq/Model/Edit.v; the tie to /repo is the step-by-step differential execution of the extracted model against the implementation on every run. Tied to the source in a second way: the history mechanism (action_history.py) and the seven composite user actions (user_actions/*.py) are re-translated on every run by fail-closed translators (harness/translate_history.py, translate_user_actions.py; closed idiom tables; runtime combinators Model/PyRt.v) and proved equal to the hand-written model for all arguments (Proofs/HistoryTie.v, UserActionsTie.v); trusted there: the idiom tables and combinators, and the stated conventions (get_time / successors on a missing node do not raise, StopIteration reported as KeyError, feature keys never None).',
     "design_ref": "DESIGN.md section 9 (C04)",
     "assumptions": ['the caller does not pass a lineage id to UserAddNode (outside its documented domain)', 'track_id and lineage_id features stay enabled during editing sessions', 'labels/ids are positive; times are frame indices within the array'],
-    "trusted": ["translators harness/translate_history.py and harness/translate_user_actions.py (closed idiom tables in their docstrings; fail closed) with the runtime combinators coq/Model/PyRt.v",
+    "trusted": ["translator harness/translate_core.py (closed idiom table; fail closed) with coq/Model/PyRt3.v; hand models left under it: regionprops / edge annotator update, bulk compute, networkx and array primitives",
+                "translators harness/translate_history.py and harness/translate_user_actions.py (closed idiom tables in their docstrings; fail closed) with the runtime combinators coq/Model/PyRt.v",
                 "correspondence harness harness/editmachine.py (scenario generator, canonicalisation, numeric references for regionprops / IoU)",
                 "oracles harness/edit_oracles.py"],
 }
@@ -30,6 +31,12 @@ def pre_build(ctx):
     translate_user_actions.regenerate(repo=str(__import__("common").REPO))
     if not translate_user_actions.LAST.get("ok"):
         raise RuntimeError("translator refused user_actions/*.py: %s" % translate_user_actions.LAST.get("msg"))
+    # the code the user actions call: queries, id counter, undo / redo, basic actions (Gen/Core_gen.v)
+    import translate_core
+
+    ok, msg = translate_core.regenerate()
+    if not ok:
+        raise RuntimeError("translator refused the core sources: %s" % msg)
 
 
 def run(ctx):
